@@ -719,7 +719,11 @@ func (e *Exec) sxCall(env *SpecEnv, n *ast.CallExpr) SVal {
 		return SVal{T: fmt.Sprintf("(= %s ((as const (Array Int Bool)) false))", e.hget(env.heap(), "G_held")), Typ: boolT}
 	case "lockOf":
 		return SVal{T: e.lockID(env, n.Args[0]), Typ: intT}
-	case "inpos", "outlen", "outwrites":
+	case "deadlineArmed":
+		c, _ := e.toIntArg(env, e.sx(env, n.Args[0]))
+		m := e.heapMap("G_rdeadline", "(Array Int Int)")
+		return SVal{T: "(not (= " + sel(e.hget(env.heap(), m), c) + " time_zero))", Typ: boolT}
+	case "inpos", "outlen", "outwrites", "rdeadline":
 		c, _ := e.toIntArg(env, e.sx(env, n.Args[0]))
 		m := e.heapMap("G_"+name, "(Array Int Int)")
 		return SVal{T: sel(e.hget(env.heap(), m), c), Typ: intT}
@@ -908,6 +912,18 @@ func (e *Exec) sxCall(env *SpecEnv, n *ast.CallExpr) SVal {
 	case "strOfBytes":
 		v := e.sx(env, n.Args[0])
 		return SVal{T: e.strOfBytes(env.heap(), v.T), Typ: types.Typ[types.String]}
+	case "called":
+		lit, ok := n.Args[0].(*ast.BasicLit)
+		if !ok {
+			return e.specErr(env, n, "called needs a string literal")
+		}
+		return SVal{T: e.hget(env.heap(), e.calledFlag(strings.Trim(lit.Value, "\""))), Typ: boolT}
+	case "succeeded":
+		lit, ok := n.Args[0].(*ast.BasicLit)
+		if !ok {
+			return e.specErr(env, n, "succeeded needs a string literal")
+		}
+		return SVal{T: e.hget(env.heap(), e.succFlag(strings.Trim(lit.Value, "\""))), Typ: boolT}
 	case "ghostget", "ghostgetb":
 		lit := n.Args[0].(*ast.BasicLit)
 		gname := strings.Trim(lit.Value, "\"")
